@@ -549,6 +549,17 @@ func (g *genState) heavyScript(tier string) {
 
 func gen(r *core.Rand, tier string) core.Case {
 	g := &genState{r: r, s: newRef(), hist: map[uint32][]bulkArgs{}, lines: []string{"@ C03 rb"}}
+	if share := map[bool]int{false: 9, true: 13}[tier == "thorough"]; r.Chance(share) {
+		g.handlesScript(tier == "thorough")
+		g.emit("len")
+		g.rep()
+		g.lines = append(g.lines, "iter", "range 0", "all 0")
+		tag := "handles"
+		if g.dense {
+			tag += "-dense"
+		}
+		return core.Case{Lines: g.lines, Tag: tag}
+	}
 	if tag := g.w3Stream(tier); tag != "" {
 		g.emit("len")
 		g.rep()
